@@ -335,11 +335,35 @@ def Inv (c : Nat) (p : Pipe) : Prop :=
   p.start ≤ p.stop ∧ ∃ o, Cont c o p.bufs ∧ (p.bufs = [] → p.start = p.stop) ∧
     (p.bufs ≠ [] → o ≤ p.start ∧ p.start ≤ o + c ∧ p.stop ≤ cend o c p.bufs)
 
-/-- Refinement relation: same window, and every byte the specification knows inside the
-window is what the chunks hold at that offset. -/
+/-- Offset of the head chunk (the window start when no chunk is allocated). -/
+def headOff (p : Pipe) : Int :=
+  match p.bufs with
+  | [] => p.start
+  | h :: _ => h.off
+
+theorem headOff_nil (st sp : Int) : headOff ⟨st, sp, []⟩ = st := rfl
+
+theorem headOff_cont (c : Nat) (o st sp : Int) (bufs : List Buf) (h : Cont c o bufs) (hne : bufs ≠ []) :
+    headOff ⟨st, sp, bufs⟩ = o := by
+  cases bufs with
+  | nil => exact absurd rfl hne
+  | cons h' t => exact h.1
+
+theorem headOff_le_start (c : Nat) (p : Pipe) (hinv : Inv c p) : headOff p ≤ p.start := by
+  obtain ⟨_, o, hcont, _, hne⟩ := hinv
+  unfold headOff
+  cases hb : p.bufs with
+  | nil => exact Int.le_refl _
+  | cons h t =>
+    rw [hb] at hcont hne
+    have := (hne (by simp)).1
+    simp only; rw [hcont.1]; exact this
+
+/-- Refinement relation: same window, and every byte the specification knows from the head chunk
+onwards (in particular everywhere inside the window) is what the chunks hold at that offset. -/
 def Rel (p : Pipe) (s : Spec) : Prop :=
   p.start = s.start ∧ p.stop = s.stop ∧
-  (∀ x v, s.start ≤ x → x < s.stop → s.data x = some v → byteAt p.bufs x = some v) ∧
+  (∀ x v, headOff p ≤ x → x < s.stop → s.data x = some v → byteAt p.bufs x = some v) ∧
   (∀ x v, s.data x = some v → x < s.stop)
 
 theorem inv_empty (c : Nat) : Inv c empty := ⟨by decide, 0, trivial, fun _ => rfl, fun h => absurd rfl h⟩
@@ -376,19 +400,21 @@ theorem writeAt_refines (c : Nat) (hc : 0 < c) (p : Pipe) (s : Spec) (b : List N
     -- the chain the loop starts from
     generalize hbufs0 : (if p.bufs.isEmpty then [newBuf c p.start] else p.bufs) = bufs0
     have h0 : ∃ o0, Cont c o0 bufs0 ∧ bufs0 ≠ [] ∧ o0 ≤ p.start ∧ p.start ≤ o0 + c ∧ p.stop ≤ cend o0 c bufs0 ∧
-        ∀ x v, byteAt p.bufs x = some v → byteAt bufs0 x = some v := by
+        (∀ x v, byteAt p.bufs x = some v → byteAt bufs0 x = some v) ∧ headOff p = o0 := by
       subst hbufs0
       cases hp : p.bufs with
       | nil =>
         have := hnil hp
-        refine ⟨p.start, ⟨rfl, by simp [newBuf], trivial⟩, by simp, by omega, by omega, ?_, ?_⟩
+        refine ⟨p.start, ⟨rfl, by simp [newBuf], trivial⟩, by simp, by omega, by omega, ?_, ?_, ?_⟩
         · simp only [List.isEmpty_nil, if_true]; have := cend_ge p.start c [newBuf c p.start]; omega
         · intro x v h; simp [byteAt] at h
+        · unfold headOff; rw [hp]
       | cons h t =>
         rw [hp] at hcont hne
         obtain ⟨a1, a2, a3⟩ := hne (by simp)
-        exact ⟨o, hcont, by simp, a1, a2, by simpa using a3, fun _ _ h => by simpa using h⟩
-    obtain ⟨o0, c0, n0, a1, a2, a3, a4⟩ := h0
+        exact ⟨o, hcont, by simp, a1, a2, by simpa using a3, fun _ _ h => by simpa using h,
+          by unfold headOff; rw [hp]; exact hcont.1⟩
+    obtain ⟨o0, c0, n0, a1, a2, a3, a4, a5⟩ := h0
     obtain ⟨l, hl, w1, w2, w3, w4, w5, w6⟩ := writeBufs_spec c hc bufs0 o0 b1 off1 c0 n0 (by omega)
     -- both branches of the shortcut run the same loop
     have hres : ∀ (stop' : Int), writeLoop c p.start stop' bufs0 b1 off1 = (⟨p.start, stop', l⟩, false) := by
@@ -417,14 +443,15 @@ theorem writeAt_refines (c : Nat) (hc : 0 < c) (p : Pipe) (s : Spec) (b : List N
         (if off + (b.length : Int) > s.stop then off + (b.length : Int) else s.stop)
       rw [r2]
     · intro x v hx1 hx2 hd
-      simp only at hx1 hx2 hd
+      rw [headOff_cont c o0 _ _ l w1 w2] at hx1
+      simp only at hx2 hd
       show byteAt l x = some v
       by_cases hin : s.start ≤ x ∧ off ≤ x ∧ x < off + (b.length : Int)
       · rw [if_pos hin] at hd
         rw [w5 x (by omega) (by omega), hb1get x (by omega)]; exact hd
       · rw [if_neg hin] at hd
         have hxs := r4 x v hd
-        exact w6 x v (by omega) (a4 x v (r3 x v hx1 hxs hd))
+        exact w6 x v (by omega) (a4 x v (r3 x v (by rw [a5]; exact hx1) hxs hd))
     · intro x v hd
       simp only at hd ⊢
       by_cases hin : s.start ≤ x ∧ off ≤ x ∧ x < off + (b.length : Int)
@@ -446,10 +473,10 @@ theorem dropBufs_spec (c : Nat) (off : Int) : ∀ (bufs : List Buf) (o : Int), C
       cend o' c (dropBufs bufs off) = cend o c bufs ∧
       (dropBufs bufs off ≠ [] → off ≤ o' + c) ∧
       (dropBufs bufs off = [] → bufs = [] ∨ cend o c bufs < off) ∧
-      (∀ x, off ≤ x → byteAt (dropBufs bufs off) x = byteAt bufs x) := by
+      (∀ x, o' ≤ x → byteAt (dropBufs bufs off) x = byteAt bufs x) ∧ o ≤ o' := by
   intro bufs
   induction bufs with
-  | nil => intro o _ ho; exact ⟨o, trivial, ho, rfl, fun h => absurd rfl h, fun _ => Or.inl rfl, fun _ _ => rfl⟩
+  | nil => intro o _ ho; exact ⟨o, trivial, ho, rfl, fun h => absurd rfl h, fun _ => Or.inl rfl, fun _ _ => rfl, Int.le_refl _⟩
   | cons pb rest ih =>
     intro o hcont ho
     obtain ⟨po, pbb⟩ := pb
@@ -458,8 +485,8 @@ theorem dropBufs_spec (c : Nat) (off : Int) : ∀ (bufs : List Buf) (o : Int), C
     subst h1
     by_cases hp : po + (pbb.length : Int) < off
     · rw [dropBufs_pop _ _ _ _ hp]
-      obtain ⟨o', i1, i2, i3, i4, i5, i6⟩ := ih (po + c) h3 (by omega)
-      refine ⟨o', i1, i2, by rw [i3, cend_cons], i4, ?_, ?_⟩
+      obtain ⟨o', i1, i2, i3, i4, i5, i6, i7⟩ := ih (po + c) h3 (by omega)
+      refine ⟨o', i1, i2, by rw [i3, cend_cons], i4, ?_, ?_, by omega⟩
       · intro h; right
         rcases i5 h with e | e
         · subst e; rw [cend_cons, cend_nil]; omega
@@ -467,12 +494,13 @@ theorem dropBufs_spec (c : Nat) (off : Int) : ∀ (bufs : List Buf) (o : Int), C
       · intro x hx
         rw [i6 x hx, byteAt_out _ _ _ _ (by omega)]
     · rw [dropBufs_keep _ _ _ _ hp]
-      exact ⟨po, ⟨rfl, h2, h3⟩, ho, rfl, fun _ => by omega, fun h => by simp at h, fun _ _ => rfl⟩
+      exact ⟨po, ⟨rfl, h2, h3⟩, ho, rfl, fun _ => by omega, fun h => by simp at h, fun _ _ => rfl, Int.le_refl _⟩
 
-/-- **discardBefore refines the specification**: the window start advances, the bytes still in
-the window are unchanged. (`off ≥ start`: discarding only moves forward.) -/
-theorem discard_refines (c : Nat) (p : Pipe) (s : Spec) (off : Int)
-    (hinv : Inv c p) (hrel : Rel p s) (hoff : s.start ≤ off) :
+/-- **discardBefore refines the specification for every offset at or after the head chunk**: forward
+(`off ≥ start`: the window start advances) and backward within the head chunk (`head.off ≤ off < start`:
+the window start moves back over bytes the head chunk still holds). No byte changes. -/
+theorem discard_refines_any (c : Nat) (p : Pipe) (s : Spec) (off : Int)
+    (hinv : Inv c p) (hrel : Rel p s) (hoff : headOff p ≤ off) :
     Inv c (discardBefore p off) ∧ Rel (discardBefore p off) (specDiscard s off) := by
   obtain ⟨hle, o, hcont, hnil, hne⟩ := hinv
   obtain ⟨r1, r2, r3, r4⟩ := hrel
@@ -480,6 +508,7 @@ theorem discard_refines (c : Nat) (p : Pipe) (s : Spec) (off : Int)
   cases hb : p.bufs with
   | nil =>
     have := hnil hb
+    have hoff' : p.start ≤ off := by unfold headOff at hoff; rw [hb] at hoff; exact hoff
     refine ⟨⟨?_, 0, ?_, ?_, ?_⟩, rfl, ?_, ?_, ?_⟩
     · show off ≤ (if p.stop > off then p.stop else off); split <;> omega
     · simp [dropBufs, Cont]
@@ -487,13 +516,15 @@ theorem discard_refines (c : Nat) (p : Pipe) (s : Spec) (off : Int)
     · intro h; simp [dropBufs] at h
     · show (if p.stop > off then p.stop else off) = (if s.stop > off then s.stop else off); rw [r2]
     · intro x v hx1 hx2 hd
-      have := r3 x v (by simp only at hx1; omega) (r4 x v hd) hd
+      have hx1' : off ≤ x := hx1
+      have := r3 x v (by unfold headOff; rw [hb]; show p.start ≤ x; omega) (r4 x v hd) hd
       rw [hb] at this; simp [byteAt] at this
     · intro x v hd; have := r4 x v hd; show x < (if s.stop > off then s.stop else off); split <;> omega
   | cons h t =>
     rw [hb] at hcont hne
     obtain ⟨a1, a2, a3⟩ := hne (by simp)
-    obtain ⟨o', i1, i2, i3, i4, i5, i6⟩ := dropBufs_spec c off (h :: t) o hcont (by omega)
+    have hho : headOff p = o := by unfold headOff; rw [hb]; exact hcont.1
+    obtain ⟨o', i1, i2, i3, i4, i5, i6, i7⟩ := dropBufs_spec c off (h :: t) o hcont (by omega)
     refine ⟨⟨?_, o', i1, ?_, ?_⟩, rfl, ?_, ?_, ?_⟩
     · show off ≤ (if p.stop > off then p.stop else off); split <;> omega
     · intro hnl
@@ -512,12 +543,151 @@ theorem discard_refines (c : Nat) (p : Pipe) (s : Spec) (off : Int)
       split <;> omega
     · show (if p.stop > off then p.stop else off) = (if s.stop > off then s.stop else off); rw [r2]
     · intro x v hx1 hx2 hd
-      simp only at hx1 hx2 hd
       show byteAt (dropBufs (h :: t) off) x = some v
-      rw [i6 x hx1]
-      have := r3 x v (by omega) (r4 x v hd) hd
-      rw [hb] at this; exact this
+      have hxs := r4 x v hd
+      by_cases hemp : dropBufs (h :: t) off = []
+      · exfalso
+        rw [hemp] at hx1
+        have hx1' : off ≤ x := hx1
+        rcases i5 hemp with e | e
+        · simp at e
+        · omega
+      · rw [headOff_cont c o' _ _ _ i1 hemp] at hx1
+        rw [i6 x hx1]
+        have := r3 x v (by omega) hxs hd
+        rw [hb] at this; exact this
     · intro x v hd; have := r4 x v hd; show x < (if s.stop > off then s.stop else off); split <;> omega
+
+/-- **discardBefore refines the specification**: the window start advances, the bytes still in
+the window are unchanged. (`off ≥ start`: the contract of the callers.) -/
+theorem discard_refines (c : Nat) (p : Pipe) (s : Spec) (off : Int)
+    (hinv : Inv c p) (hrel : Rel p s) (hoff : s.start ≤ off) :
+    Inv c (discardBefore p off) ∧ Rel (discardBefore p off) (specDiscard s off) :=
+  discard_refines_any c p s off hinv hrel (by have := headOff_le_start c p hinv; have := hrel.1; omega)
+
+/-- **A discard below the head chunk** (`off < head.off`, or `off < start` with no chunk allocated) does
+what the code does — the window start moves back to `off`, no chunk is released, the end is unchanged —
+and leaves the representation invariant: the window now claims offsets no chunk holds, and any
+non-empty read at the new window start panics. Such a call is outside the contract of `discardBefore`. -/
+theorem discard_below_head (c : Nat) (hc : 0 < c) (p : Pipe) (off : Int) (hinv : Inv c p) (hoff : off < headOff p) :
+    discardBefore p off = ⟨off, p.stop, p.bufs⟩ ∧ ¬ Inv c (discardBefore p off) ∧
+    ∀ n, 0 < n → read (discardBefore p off) off n = none := by
+  obtain ⟨hle, o, hcont, hnil, hne⟩ := hinv
+  have hst : headOff p ≤ p.start := headOff_le_start c p ⟨hle, o, hcont, hnil, hne⟩
+  have e : discardBefore p off = ⟨off, p.stop, p.bufs⟩ := by
+    unfold discardBefore
+    have h1 : (if p.stop > off then p.stop else off) = p.stop := by split <;> omega
+    have h2 : dropBufs p.bufs off = p.bufs := by
+      cases hb : p.bufs with
+      | nil => rfl
+      | cons h t =>
+        rw [hb] at hcont hne
+        obtain ⟨a1, a2, a3⟩ := hne (by simp)
+        obtain ⟨po, pbb⟩ := h
+        have hh : headOff p = po := by unfold headOff; rw [hb]
+        have := hcont.1; have := hcont.2.1
+        simp only at *
+        exact dropBufs_keep _ _ _ _ (by omega)
+    rw [h1, h2]
+  refine ⟨e, ?_, ?_⟩
+  · rw [e]
+    rintro ⟨hle', o2, hcont2, hnil2, hne2⟩
+    cases hb : p.bufs with
+    | nil =>
+      have h1 := hnil hb
+      have h2 := hnil2 hb
+      have hh : headOff p = p.start := by unfold headOff; rw [hb]
+      simp only at h2; omega
+    | cons h t =>
+      simp only at hcont2 hne2
+      rw [hb] at hcont2 hne2
+      have := (hne2 (by simp)).1
+      have hh : headOff p = h.off := by unfold headOff; rw [hb]
+      have := hcont2.1
+      simp only at *; omega
+  · intro n hn
+    rw [e]
+    unfold Model.Pipe.read
+    rw [if_neg (by simp)]
+    cases hb : p.bufs with
+    | nil => simp [readBufs, hn]
+    | cons h t =>
+      have hh : headOff p = h.off := by unfold headOff; rw [hb]
+      rw [hb] at hcont
+      have hlen := hcont.2.1
+      rw [readBufs]
+      have h1 : ¬ (off ≥ h.stop) := by unfold Buf.stop; omega
+      have h2 : off < h.off := by omega
+      simp only [hn, h1, h2, if_true, if_false, gt_iff_lt]
+
+/-! ### exactly when `writeAt` panics (states with any contiguous chain, in or out of contract) -/
+
+theorem writeBufs_neg (c : Nat) (pb : Buf) (rest : List Buf) (b : List Nat) (off : Int) (h : off < pb.off) :
+    writeBufs c (pb :: rest) b off = none := by
+  have h1 : off - pb.off < (pb.b.length : Int) := by omega
+  have h2 : off - pb.off < 0 := by omega
+  cases rest <;> (rw [writeBufs]; simp only [h1, h2, if_true])
+
+/-- Both arms of the tail shortcut are the loop over the whole chain. -/
+theorem writeLoop_eq (c : Nat) (bufs0 : List Buf) (o0 : Int) (c0 : Cont c o0 bufs0) (n0 : bufs0 ≠ [])
+    (b1 : List Nat) (off1 start stop' : Int) :
+    writeLoop c start stop' bufs0 b1 off1 =
+      match writeBufs c bufs0 b1 off1 with
+      | none => (⟨start, stop', bufs0⟩, true)
+      | some l => (⟨start, stop', l⟩, false) := by
+  obtain ⟨pre, tail, hsp, hlast, hdl⟩ := split_last bufs0 n0
+  unfold writeLoop
+  rw [hlast]
+  simp only
+  have hsplit : bufs0.dropLast ++ [tail] = bufs0 := by rw [hdl]; exact hsp.symm
+  by_cases ht : off1 ≥ tail.off
+  · rw [if_pos ht]
+    have := writeBufs_tail c bufs0.dropLast tail o0 b1 off1 (by rw [hsplit]; exact c0) ht
+    rw [hsplit] at this
+    rw [this]
+    cases writeBufs c [tail] b1 off1 <;> simp
+  · rw [if_neg ht]
+    cases writeBufs c bufs0 b1 off1 <;> rfl
+
+/-- **Exactly when `writeAt` panics**: never while the window start is at or after the head chunk (every
+state within the contract); after a discard below the head chunk, exactly the writes whose first
+retained byte lies before the head chunk (slice index `off - head.off < 0`). The pipe keeps its chunks
+and has only `p.end` updated. -/
+theorem writeAt_panics_iff (c : Nat) (hc : 0 < c) (p : Pipe) (o : Int) (b : List Nat) (off : Int)
+    (_hle : p.start ≤ p.stop) (hcont : Cont c o p.bufs) :
+    ((writeAt c p b off).2 = true ↔
+      (¬ (off + (b.length : Int) ≤ p.stop ∧ off + (b.length : Int) ≤ p.start) ∧ p.bufs ≠ [] ∧ off < o ∧ p.start < o)) ∧
+    ((writeAt c p b off).2 = true →
+      (writeAt c p b off).1 = ⟨p.start, if off + (b.length : Int) > p.stop then off + (b.length : Int) else p.stop, p.bufs⟩) := by
+  unfold writeAt
+  simp only
+  by_cases hskip : off + (b.length : Int) ≤ p.stop ∧ off + (b.length : Int) ≤ p.start
+  · rw [if_pos hskip]
+    exact ⟨⟨fun h => by simp at h, fun h => absurd hskip h.1⟩, fun h => by simp at h⟩
+  · rw [if_neg hskip]
+    generalize (if off < p.start then b.drop (p.start - off).toNat else b) = b1
+    generalize hoff1 : (if off < p.start then p.start else off) = off1
+    have ho1 : p.start ≤ off1 ∧ off ≤ off1 ∧ (off1 = off ∨ off1 = p.start) := by subst hoff1; split <;> omega
+    generalize (if off + (b.length : Int) > p.stop then off + (b.length : Int) else p.stop) = stop'
+    cases hb : p.bufs with
+    | nil =>
+      simp only [List.isEmpty_nil, if_true]
+      have c0 : Cont c p.start [newBuf c p.start] := ⟨rfl, by simp [newBuf], trivial⟩
+      rw [writeLoop_eq c _ p.start c0 (by simp)]
+      obtain ⟨l, hl, _⟩ := writeBufs_spec c hc [newBuf c p.start] p.start b1 off1 c0 (by simp) (by omega)
+      rw [hl]
+      exact ⟨⟨fun h => by simp at h, fun h => absurd rfl h.2.1⟩, fun h => by simp at h⟩
+    | cons h t =>
+      rw [hb] at hcont
+      have hho : h.off = o := hcont.1
+      simp only [List.isEmpty_cons, Bool.false_eq_true, if_false]
+      rw [writeLoop_eq c _ o hcont (by simp)]
+      by_cases hneg : off1 < o
+      · rw [writeBufs_neg c h t b1 off1 (by omega)]
+        exact ⟨⟨fun _ => ⟨hskip, by simp, by omega, by omega⟩, fun _ => rfl⟩, fun _ => rfl⟩
+      · obtain ⟨l, hl, _⟩ := writeBufs_spec c hc (h :: t) o b1 off1 hcont (by simp) (by omega)
+        rw [hl]
+        exact ⟨⟨fun h => by simp at h, fun h => by omega⟩, fun h => by simp at h⟩
 
 /-! ### reading -/
 
@@ -601,6 +771,106 @@ theorem readBufs_spec (c : Nat) (hc : 0 < c) : ∀ (bufs : List Buf) (o off n : 
               congr 1; omega
     · exact ⟨[], readBufs_zero _ _ _ (by omega), by simp; omega, fun i hi => by omega⟩
 
+/-- The loop of `read` panics when the range runs past the last allocated chunk. -/
+theorem readBufs_none (c : Nat) (hc : 0 < c) : ∀ (bufs : List Buf) (o off n : Int),
+    Cont c o bufs → o ≤ off → 0 < n → cend o c bufs < off + n → readBufs bufs off n = none := by
+  intro bufs
+  induction bufs with
+  | nil => intro o off n _ _ hn _; simp [readBufs, hn]
+  | cons pb rest ih =>
+    intro o off n hcont ho hn hb
+    obtain ⟨po, pbb⟩ := pb
+    obtain ⟨h1, h2, h3⟩ := hcont
+    simp only at h1 h2
+    subst h1
+    subst h2
+    rw [cend_cons] at hb
+    have hpos : n > 0 := hn
+    rw [readBufs]
+    simp only [Buf.stop, hpos, if_true]
+    by_cases hge : off ≥ po + (pbb.length : Int)
+    · simp only [hge, if_true]
+      exact ih (po + (pbb.length : Int)) off n h3 hge hn hb
+    · have hlt : ¬ (off < po) := by omega
+      simp only [hge, hlt, if_false]
+      have hce := cend_ge (po + (pbb.length : Int)) pbb.length rest
+      generalize hb' : (if ((pbb.drop (off - po).toNat).length : Int) > n
+          then (pbb.drop (off - po).toNat).take n.toNat else pbb.drop (off - po).toNat) = b'
+      have hm : (b'.length : Int) = (pbb.length : Int) - (off - po) := by
+        subst hb'
+        simp only [List.length_drop]
+        split
+        · rename_i hh; omega
+        · simp only [List.length_drop]; omega
+      rw [ih (po + (pbb.length : Int)) (off + (b'.length : Int)) (n - (b'.length : Int)) h3
+        (by omega) (by omega) (by omega)]
+      rfl
+
+/-- One past the last offset for which a chunk is allocated (the window end when there is none). -/
+def allocEnd (c : Nat) (p : Pipe) : Int :=
+  match p.bufs with
+  | [] => p.stop
+  | h :: _ => cend h.off c p.bufs
+
+theorem cont_head (c : Nat) (o : Int) (h : Buf) (t : List Buf) (hc : Cont c o (h :: t)) : h.off = o := hc.1
+
+theorem stop_le_allocEnd (c : Nat) (p : Pipe) (hinv : Inv c p) : p.stop ≤ allocEnd c p := by
+  obtain ⟨_, o, hcont, _, hne⟩ := hinv
+  unfold allocEnd
+  cases hb : p.bufs with
+  | nil => exact Int.le_refl _
+  | cons h t =>
+    rw [hb] at hcont hne
+    have := (hne (by simp)).2.2
+    simp only; rw [cont_head c o h t hcont]; exact this
+
+/-- **Exactly which reads panic** (in every state reachable within the contract): a read panics iff it
+starts before the window start, or it is non-empty and runs past the last ALLOCATED chunk — not past
+the window end `p.end`. Since `p.end ≤ allocEnd`, every in-window read succeeds, and a read of
+`[off, off+n)` with `p.end < off+n ≤ allocEnd` succeeds too (it returns never-written bytes of the
+tail chunk). -/
+theorem read_panics_iff (c : Nat) (hc : 0 < c) (p : Pipe) (off n : Int) (hinv : Inv c p) :
+    read p off n = none ↔ (off < p.start ∨ (0 < n ∧ allocEnd c p < off + n)) := by
+  obtain ⟨hle, o, hcont, hnil, hne⟩ := hinv
+  unfold Model.Pipe.read allocEnd
+  by_cases hs : off < p.start
+  · rw [if_pos hs]; exact ⟨fun _ => Or.inl hs, fun _ => rfl⟩
+  · rw [if_neg hs]
+    cases hb : p.bufs with
+    | nil =>
+      have := hnil hb
+      simp only
+      by_cases hn : 0 < n
+      · have : readBufs [] off n = none := by simp [readBufs, hn]
+        rw [this]; exact ⟨fun _ => Or.inr ⟨hn, by omega⟩, fun _ => rfl⟩
+      · rw [readBufs_zero _ _ _ (by omega)]
+        exact ⟨fun h => by simp at h, fun h => by omega⟩
+    | cons h t =>
+      rw [hb] at hcont hne
+      obtain ⟨a1, a2, a3⟩ := hne (by simp)
+      simp only; rw [cont_head c o h t hcont]
+      by_cases hn : 0 < n
+      · by_cases hend : cend o c (h :: t) < off + n
+        · rw [readBufs_none c hc (h :: t) o off n hcont (by omega) hn hend]
+          exact ⟨fun _ => Or.inr ⟨hn, hend⟩, fun _ => rfl⟩
+        · obtain ⟨cs, e, _, _⟩ := readBufs_spec c hc (h :: t) o off n hcont (by omega) (by omega) (by omega)
+          rw [e]; exact ⟨fun h => by simp at h, fun h => by omega⟩
+      · rw [readBufs_zero _ _ _ (by omega)]
+        exact ⟨fun h => by simp at h, fun h => by omega⟩
+
+/-- The window-only contract as a corollary: reads inside `[start, end)` never panic. -/
+theorem read_in_window_no_panic (c : Nat) (hc : 0 < c) (p : Pipe) (off n : Int) (hinv : Inv c p)
+    (h1 : p.start ≤ off) (h3 : off + n ≤ p.stop) : read p off n ≠ none := by
+  intro h
+  have := stop_le_allocEnd c p hinv
+  rcases (read_panics_iff c hc p off n hinv).1 h with h' | h' <;> omega
+
+/-- "Panics exactly outside the window" is false for the code: a read past `p.end` inside the tail chunk. -/
+theorem read_past_end_no_panic_witness :
+    ∃ (p : Pipe), Inv 4 p ∧ p.stop < 0 + 4 ∧ read p 0 4 ≠ none :=
+  ⟨(writeAt 4 empty [1, 2] 0).1, (writeAt_refines 4 (by decide) empty Spec.empty [1, 2] 0 (inv_empty 4) rel_empty).2.1,
+    by decide, by decide⟩
+
 /-- **read/copy inside the window**: no panic, exactly `n` bytes, byte `i` is the byte the chunks
 hold at offset `off + i`. -/
 theorem read_in_window (c : Nat) (hc : 0 < c) (p : Pipe) (off n : Int) (hinv : Inv c p)
@@ -627,7 +897,7 @@ theorem read_returns_written (c : Nat) (hc : 0 < c) (p : Pipe) (s : Spec) (off n
       ∀ (i : Nat) (v : Nat), (i : Int) < n → s.data (off + i) = some v → cs.flatten[i]? = some v := by
   obtain ⟨r1, r2, r3, r4⟩ := hrel
   obtain ⟨cs, e1, e2, e3⟩ := read_in_window c hc p off n hinv (by omega) h2 (by omega)
-  exact ⟨cs, e1, e2, fun i v hi hd => by rw [e3 i hi]; exact r3 _ v (by omega) (by omega) hd⟩
+  exact ⟨cs, e1, e2, fun i v hi hd => by rw [e3 i hi]; exact r3 _ v (by have := headOff_le_start c p hinv; omega) (by omega) hd⟩
 
 /-- Reading from before the window start panics (the explicit check in `read`). -/
 theorem read_before_start_panics (p : Pipe) (off n : Int) (h : off < p.start) : read p off n = none := by
